@@ -19,9 +19,9 @@ else
 fi
 for P in "$@"; do
   LOG=/var/tmp/try_${NAME}_$P.log
-  LX_REPO=$ROOT /verif/vcheck $P --tier ${TIER:-quick} > $LOG 2>&1; RC=$?
+  LX_REPO=$ROOT /verif/vcheck $P --tier ${TIER:-quick} ${ONLY:+--only $ONLY} > $LOG 2>&1; RC=$?
   echo "seed=$NAME check=$P rc=$RC $(grep -c '^VIOLATION' $LOG) violation line(s); $(grep -c '^HARNESS' $LOG) harness line(s)"
-  grep -m2 '^VIOLATION\|^HARNESS' $LOG | cut -c1-300
+  grep -a -m2 "^VIOLATION\|^HARNESS" $LOG | cut -c1-300
   rm -f $LOG
 done
 if [ -n "$APPLY_IN_REPO" ]; then git -C /repo checkout -- .; else git -C /repo worktree remove --force "$ROOT"; fi
